@@ -5,6 +5,7 @@ mod common;
 mod engine;
 mod explore;
 mod fixtures_gen;
+mod keyfix;
 mod macrodrv;
 mod macrorun;
 
@@ -24,6 +25,7 @@ fn main() {
         "engine-rand" => engine::cmd_random(rest),
         "explore" => explore::cmd_explore(rest),
         "macro" => macrorun::cmd_macro(rest),
+        "keys" => keyfix::cmd_keys(rest),
         other => {
             eprintln!("unknown subcommand {}", other);
             2
